@@ -38,6 +38,7 @@ type specEnv struct {
 
 func (f *frame) baseEnv(heap *heapState) *specEnv {
 	env := &specEnv{f: f, c: f.c, heap: heap, old: f.entry, vars: map[string]SVal{}}
+	env.resolve = func(name string) (SVal, bool) { return f.addrVar(name, env.heap) }
 	if f.fn.Pkg != nil {
 		env.pkg = f.fn.Pkg.Pkg
 	}
@@ -459,10 +460,8 @@ func (env *specEnv) evalCall(x *ECall) SVal {
 			specFail("local(x) needs an identifier")
 		}
 		root := c.rootFrame
-		if a, ok := root.debugAddr[id.Name]; ok {
-			if have, ok := root.vals[a]; ok {
-				return root.sval(have, a.Type())
-			}
+		if v, ok := root.addrVar(id.Name, env.heap); ok {
+			return v
 		}
 		found, ok := root.lookupLocal(id.Name, env.at)
 		if !ok {
@@ -653,20 +652,7 @@ func (env *specEnv) applySpecFunc(sf *SpecFunc, args []SVal) SVal {
 // executor uses for calls to methods declared `pure` in an extern contract).
 func (env *specEnv) evalMethod(x *EMethod) SVal {
 	c := env.c
-	recv := env.eval(x.X)
-	if recv.GoT == nil {
-		specFail("method call .%s() on a value of unknown Go type", x.Name)
-	}
-	obj, _, _ := types.LookupFieldOrMethod(recv.GoT, true, env.pkg, x.Name)
-	fn, ok := obj.(*types.Func)
-	if !ok {
-		specFail("type %s has no method %s", recv.GoT, x.Name)
-	}
-	sig := fn.Type().(*types.Signature)
-	args := []Term{recv.T}
-	for _, a := range x.Args {
-		args = append(args, env.eval(a).T)
-	}
+	fn, args, sig := env.pureCallParts(x)
 	if sig.Results().Len() != 1 {
 		specFail("pure method %s must have exactly one result", x.Name)
 	}
@@ -679,6 +665,26 @@ func (env *specEnv) evalMethod(x *EMethod) SVal {
 func (env *specEnv) pureCallParts(e Expr) (*types.Func, []Term, *types.Signature) {
 	switch x := e.(type) {
 	case *EMethod:
+		// pkg.F(args): a pure function of an imported package
+		if id, ok := x.X.(*EIdent); ok && env.pkg != nil {
+			if _, isVar := env.vars[id.Name]; !isVar {
+				for _, imp := range env.pkg.Imports() {
+					if imp.Name() != id.Name {
+						continue
+					}
+					if fn, ok := imp.Scope().Lookup(x.Name).(*types.Func); ok {
+						if ct := env.c.eng.contracts[fn.FullName()]; ct == nil || !ct.Pure {
+							specFail("%s.%s is used as a spec function but has no `pure` extern contract", id.Name, x.Name)
+						}
+						var args []Term
+						for _, a := range x.Args {
+							args = append(args, env.eval(a).T)
+						}
+						return fn, args, fn.Type().(*types.Signature)
+					}
+				}
+			}
+		}
 		recv := env.eval(x.X)
 		if recv.GoT == nil {
 			specFail("method call .%s() on a value of unknown Go type", x.Name)
